@@ -78,20 +78,28 @@ def gen_component(rng, kind, ids):
     return e
 
 
-def gen_case(rng, backend):
-    link = rng.choice(["dedupe_only", "link_only", "link_only", "link_and_dedupe"])
-    names = ["a"] if link == "dedupe_only" else rng.sample(["a", "b", "c", "ds_x"], rng.choice([2, 3]))
-    n = rng.randint(2, 12)
-    uids = rng.sample(range(1, 40), n)
-    if link != "dedupe_only" and rng.random() < 0.5:       # same unique_id in several datasets
-        uids = [rng.choice(uids[:max(1, n // 2)]) for _ in range(n)]
-    nodes, seen = [], set()
-    for u in uids:
-        ds = rng.choice(names)
-        if (ds, u) in seen:
-            continue
-        seen.add((ds, u))
-        nodes.append((ds, u))
+def gen_case(rng, backend, fixed=None, thr=None):
+    """fixed = (link, names, nodes) re-uses the records of an earlier call on the same linker;
+    thr forces the threshold (k/1024)."""
+    if fixed is not None:
+        link, names, nodes = fixed
+        nodes = list(nodes)
+    else:
+        link = rng.choice(["dedupe_only", "link_only", "link_only", "link_and_dedupe"])
+        names = ["a"] if link == "dedupe_only" else rng.sample(["a", "b", "c", "ds_x"], rng.choice([2, 3]))
+        n = rng.randint(2, 12)
+        uids = rng.sample(range(1, 40), n)
+        if link != "dedupe_only" and rng.random() < 0.5:       # same unique_id in several datasets
+            uids = [rng.choice(uids[:max(1, n // 2)]) for _ in range(n)]
+        nodes, seen = [], set()
+        for u in uids:
+            ds = rng.choice(names)
+            if (ds, u) in seen:
+                continue
+            seen.add((ds, u))
+            nodes.append((ds, u))
+        if len(nodes) < 2:
+            return gen_case(rng, backend, fixed, thr)
     n = len(nodes)
     order = list(range(n))
     rng.shuffle(order)
@@ -110,7 +118,8 @@ def gen_case(rng, backend):
         a, b = rng.sample(range(n), 2)
         if (a, b) not in edges and (b, a) not in edges:
             edges.append((a, b))
-    thr = rng.choice([0, 256, 512, 700, rng.randint(1, DEN - 1)])
+    if thr is None:
+        thr = rng.choice([0, 256, 512, 700, rng.randint(1, DEN - 1)])
     rows = []
     for a, b in edges:
         p = rng.choice([thr, rng.randint(thr, DEN), rng.randint(thr, DEN), rng.randint(0, DEN)])
@@ -123,8 +132,6 @@ def gen_case(rng, backend):
         a, b, p = rng.choice(rows)
         rows.append(rng.choice([(a, b, p), (b, a, min(DEN, p + 1)), (a, a, DEN)]))
     if not any(p >= thr for _, _, p in rows):
-        if n < 2:
-            return gen_case(rng, backend)
         a, b = rng.sample(range(n), 2)
         rows.append((a, b, DEN))
     rng.shuffle(rows)
@@ -201,6 +208,165 @@ def run_impl(case):
         dc = lk.table_management.register_table(pd.DataFrame(cl), "__splink__df_clustered_verif", overwrite=True)
         gm = lk.clustering.compute_graph_metrics(dp, dc, threshold_match_probability=thr)
     return {"nodes": gm.nodes.as_record_dict(), "edges": gm.edges.as_record_dict(), "clusters": gm.clusters.as_record_dict()}
+
+
+# --------------------------------------------------------------------------------------------
+# histories: several compute_graph_metrics calls on ONE linker (different thresholds, different
+# prediction / clustering tables, the same inputs twice), thresholds incl. the boundaries 0.0 and
+# 1.0, threshold passed explicitly / read from the clustering metadata / passed explicitly while
+# the metadata carries another value.  Every call has its own expected tables.
+def gen_history(rng, backend):
+    base = gen_case(rng, backend)
+    fixed = (base["link"], base["names"], base["nodes"])
+    calls = []
+    for k in range(rng.choice([2, 2, 3])):
+        kind = "first" if k == 0 else rng.choice(["repeat", "new_threshold", "new_threshold", "new_predictions", "new_predictions"])
+        if kind == "first":
+            c = base
+        elif kind == "repeat":
+            c = dict(calls[rng.randrange(k)])
+        elif kind == "new_threshold":
+            prev = calls[rng.randrange(k)]
+            c = dict(prev)
+            top = max(p for _, _, p in prev["edges"])
+            c["thr"] = rng.choice([0, top, rng.randint(0, top), rng.randint(0, top)])
+            c["clusters"] = clustering(base["nodes"], c["edges"], c["thr"]) if rng.random() < 0.5 else prev["clusters"]
+        else:
+            c = gen_case(rng, backend, fixed=fixed, thr=rng.choice([None, None, 0, DEN]))
+        c = {x: c[x] for x in ("edges", "thr", "clusters", "kinds", "multigraph")}
+        c["kind"] = kind
+        # how the clustering table and the threshold reach compute_graph_metrics
+        c["cluster_source"] = rng.choice(["registered", "registered", "real"]) if base["link"] != "link_and_dedupe" else "registered"
+        c["pass"] = rng.choice(["explicit", "explicit", "metadata", "explicit_over_metadata"])
+        if rng.random() < 0.3 and c["pass"] != "metadata" and kind != "repeat":
+            c["thr"] = 0                                   # boundary: explicit 0.0 (every edge counts)
+        if c["pass"] == "explicit" and c["cluster_source"] == "registered":
+            c["meta_thr"] = None                           # df_clustered without threshold metadata
+        elif c["pass"] == "metadata":
+            c["meta_thr"] = c["thr"]
+        else:
+            others = [t for t in (0, 300, 512, 900, DEN) if t != c["thr"]]
+            c["meta_thr"] = rng.choice(others)             # metadata says something else: explicit wins
+        if c["cluster_source"] == "real":
+            # the real clusterer decides the clusters (components at its own threshold = the metadata)
+            c["clusters"] = clustering(base["nodes"], c["edges"], c["meta_thr"])
+        calls.append(c)
+    return {"backend": backend, "link": base["link"], "names": base["names"], "nodes": base["nodes"], "calls": calls}
+
+
+def call_case(hist, k):
+    """The single-call view of call k (what the model is asked about)."""
+    c = hist["calls"][k]
+    return {"backend": hist["backend"], "link": hist["link"], "names": hist["names"], "nodes": hist["nodes"],
+            "edges": c["edges"], "thr": c["thr"], "clusters": c["clusters"], "mode": c["cluster_source"],
+            "kinds": c["kinds"], "multigraph": c["multigraph"]}
+
+
+def run_history(hist):
+    """Returns one entry per call: the three tables, or {'raised': ...} when the call raises."""
+    from splink import Linker, SettingsCreator
+    nodes, link = hist["nodes"], hist["link"]
+    dedupe = link == "dedupe_only"
+    api = su.make_api(hist["backend"])
+    s = SettingsCreator(link_type=link, comparisons=[], blocking_rules_to_generate_predictions=[])
+    df = pd.DataFrame({"unique_id": [u for _, u in nodes]}) if dedupe else \
+        pd.DataFrame({"unique_id": [u for _, u in nodes], "source_dataset": [ds for ds, _ in nodes]})
+    lk = Linker(df, s, api)
+    su.quiet()
+    out, tables = [], {}
+    for k, c in enumerate(hist["calls"]):
+        try:
+            e = c["edges"]
+            key = json.dumps(e)
+            if key not in tables:                          # the same predictions -> the same table object
+                pred = {"unique_id_l": [nodes[a][1] for a, _, _ in e], "unique_id_r": [nodes[b][1] for _, b, _ in e]}
+                if not dedupe:
+                    pred["source_dataset_l"] = [nodes[a][0] for a, _, _ in e]
+                    pred["source_dataset_r"] = [nodes[b][0] for _, b, _ in e]
+                pred["match_probability"] = [p / DEN for _, _, p in e]
+                tables[key] = lk.table_management.register_table(pd.DataFrame(pred), f"__splink__df_predict_verif_{k}", overwrite=True)
+            dp = tables[key]
+            if c["cluster_source"] == "real":
+                dc = lk.clustering.cluster_pairwise_predictions_at_threshold(dp, threshold_match_probability=c["meta_thr"] / DEN)
+            else:
+                cl = {"cluster_id": [comp_id(hist, x) for x in c["clusters"]], "unique_id": [u for _, u in nodes]}
+                if not dedupe:
+                    cl["source_dataset"] = [ds for ds, _ in nodes]
+                dc = lk.table_management.register_table(pd.DataFrame(cl), f"__splink__df_clustered_verif_{k}", overwrite=True)
+                if c["meta_thr"] is not None:
+                    dc.metadata["threshold_match_probability"] = c["meta_thr"] / DEN
+            if c["pass"] == "metadata":
+                gm = lk.clustering.compute_graph_metrics(dp, dc)
+            else:
+                gm = lk.clustering.compute_graph_metrics(dp, dc, threshold_match_probability=c["thr"] / DEN)
+            out.append({"nodes": gm.nodes.as_record_dict(), "edges": gm.edges.as_record_dict(), "clusters": gm.clusters.as_record_dict()})
+        except Exception as ex:  # noqa: BLE001
+            out.append({"raised": f"{type(ex).__name__}: {str(ex)[:400]}", "type": type(ex).__name__})
+    return out
+
+
+def effective_case(hist, k, res):
+    """call_case, with the clusters the real clusterer actually produced (its cluster id is the
+    least composite id, not the least row index)."""
+    cc = call_case(hist, k)
+    if hist["calls"][k]["cluster_source"] == "real" and "raised" not in res:
+        idx = {comp_id(hist, v): v for v in range(len(hist["nodes"]))}
+        got = {idx[x["composite_unique_id"]]: idx[x["cluster_id"]] for x in res["nodes"]}
+        cc["clusters"] = [got.get(v, v) for v in range(len(hist["nodes"]))]
+    return cc
+
+
+def history_fails(hist):
+    """Does the LAST call of the history raise or differ from the definitions?"""
+    res = run_history(hist)[-1]
+    if "raised" in res:
+        return True
+    return bool(py_diff(effective_case(hist, len(hist["calls"]) - 1, res), res))
+
+
+def minimise_history(hist, k):
+    """Smallest sub-history (call k alone, or one earlier call + call k) that still fails."""
+    cands = [[k]] + [[j, k] for j in range(k)] + [list(range(k + 1))]
+    for idx in cands:
+        h = dict(hist, calls=[hist["calls"][i] for i in idx])
+        try:
+            if history_fails(h):
+                return h
+        except Exception:  # noqa: BLE001
+            pass
+    return dict(hist, calls=hist["calls"][:k + 1])
+
+
+def report_history(ctx, hist, k, reported):
+    small = minimise_history(hist, k)
+    res = run_history(small)
+    last = len(small["calls"]) - 1
+    cc = effective_case(small, last, res[last])
+    c = small["calls"][last]
+    f = {"calls_on_linker": len(small["calls"]), "backend": small["backend"], "threshold_passed": c["pass"],
+         "threshold_zero": c["thr"] == 0, "metadata_present": c["meta_thr"] is not None}
+    replay = {"history": small, "failing_call": last,
+              "note": "ids are row indexes into history.nodes; thresholds and probabilities are k/1024"}
+    sn, se, sc = py_spec(cc)
+    replay["specification"] = {"nodes": jsonable(sn), "edges": jsonable(se), "clusters": jsonable(sc)}
+    if "raised" in res[last]:
+        f["raises"] = res[last]["type"]
+        replay["implementation"] = {"raised": res[last]["raised"]}
+        what = (f"compute_graph_metrics raises {res[last]['type']} on an input with a defined answer "
+                f"(threshold {c['thr'] / DEN} passed {c['pass']}, metadata {'present' if c['meta_thr'] is not None else 'absent'}, "
+                f"call {last + 1} on the linker, {small['backend']})")
+    else:
+        which = py_diff(cc, res[last])
+        f["tables"] = which
+        nodes, edges, clusters = canon(cc, res[last])
+        replay["implementation"] = {"nodes": jsonable(nodes), "edges": jsonable(edges), "clusters": jsonable(clusters)}
+        what = (f"compute_graph_metrics call {last + 1} of {len(small['calls'])} on one linker differs from the graph-theoretic "
+                f"definitions in {which or 'model comparison'} ({small['backend']})")
+    key = json.dumps(f, sort_keys=True)
+    if key in reported or len(reported) >= 6:
+        return
+    reported.add(key)
+    ctx.violation(what, replay, f)
 
 
 def frac(x):
@@ -371,7 +537,7 @@ def count(ctx, case):
 
 
 def correspondence(ctx: Ctx):
-    plan = [("duckdb", 260 if ctx.quick else 3000), ("sqlite", 260 if ctx.quick else 3000)]
+    plan = [("duckdb", 150 if ctx.quick else 2000), ("sqlite", 150 if ctx.quick else 2000)]
     terms, cases = [], []
     reported = set()
     for backend, cnt in plan:
@@ -379,10 +545,50 @@ def correspondence(ctx: Ctx):
             case = gen_case(ctx.rng, backend)
             if case["mode"] == "real" and i % 2:
                 case["thr_from_metadata"] = True
-            impl = run_impl(case)
+            try:
+                impl = run_impl(case)
+            except Exception as ex:  # noqa: BLE001
+                count(ctx, case)
+                f = {"raises": type(ex).__name__, "backend": backend, "calls_on_linker": 1}
+                if json.dumps(f, sort_keys=True) not in reported:
+                    reported.add(json.dumps(f, sort_keys=True))
+                    ctx.violation(f"compute_graph_metrics raises {type(ex).__name__} on an input with a defined answer ({backend})",
+                                  {"case": case, "implementation": {"raised": f"{type(ex).__name__}: {str(ex)[:400]}"}}, f)
+                continue
             count(ctx, case)
             terms.append(case_term(case, impl))
             cases.append(case)
+    # histories of 2-3 calls on one linker
+    hist_terms, hist_meta = [], []
+    raised = []
+    for backend, cnt in (("duckdb", 110 if ctx.quick else 1200), ("sqlite", 110 if ctx.quick else 1200)):
+        for _ in range(cnt):
+            hist = gen_history(ctx.rng, backend)
+            res = run_history(hist)
+            ctx.hist("calls_per_linker", len(hist["calls"]))
+            for k, (c, r) in enumerate(zip(hist["calls"], res)):
+                cc = call_case(hist, k)
+                count(ctx, cc)
+                ctx.hist("history_call_kind", c["kind"])
+                ctx.hist("threshold_passed", c["pass"] + ("" if c["meta_thr"] is not None else "/no-metadata"))
+                ctx.hist("threshold_boundary", "0.0" if c["thr"] == 0 else "1.0" if c["thr"] == DEN else "inner")
+                if "raised" in r:
+                    raised.append((hist, k))
+                    continue
+                cc = effective_case(hist, k, r)
+                hist_terms.append(case_term(cc, r))
+                hist_meta.append((hist, k))
+    ctx.obligation(f"no call raises on an input with a defined answer ({len(raised)} raised)", not raised)
+    for hist, k in raised:
+        report_history(ctx, hist, k, reported)
+    hbad, herrs = ctx.eval_cases("C19_h", HEADER, hist_terms, "run_case", shard=80)
+    for e in herrs:
+        ctx.obligation("history shard evaluation", False, e)
+    ctx.obligation(f"correspondence: every call of {len(hist_meta)} calls in multi-call histories = Gallina model", not hbad and not herrs)
+    for i in hbad:
+        report_history(ctx, hist_meta[i][0], hist_meta[i][1], reported)
+    if herrs and not hbad:
+        ctx.violation("correspondence C19_h could not be evaluated", {"broken": "C19_h", "errors": herrs}, found_input=False)
     bad, errs = ctx.eval_cases("C19_x", HEADER, terms, "run_case", shard=80)
     for e in errs:
         ctx.obligation("correspondence shard evaluation", False, e)
@@ -395,11 +601,30 @@ def correspondence(ctx: Ctx):
 
 def replay(ctx: Ctx):
     d = json.loads(open(ctx.replay).read())
+    if "history" in d:
+        hist = d["history"]
+        hist["nodes"] = [tuple(x) for x in hist["nodes"]]
+        for c in hist["calls"]:
+            c["edges"] = [tuple(x) for x in c["edges"]]
+        k = len(hist["calls"]) - 1
+        count(ctx, call_case(hist, k))
+        failing = history_fails(hist)
+        ctx.obligation("replayed history: last call agrees with the definitions", not failing)
+        if failing:
+            report_history(ctx, hist, k, set())
+        return
     case = d["case"]
     case["nodes"] = [tuple(x) for x in case["nodes"]]
     case["edges"] = [tuple(x) for x in case["edges"]]
-    impl = run_impl(case)
     count(ctx, case)
+    try:
+        impl = run_impl(case)
+    except Exception as ex:  # noqa: BLE001
+        ctx.obligation("replayed case does not raise", False, repr(ex))
+        ctx.violation(f"replay: compute_graph_metrics raises {type(ex).__name__} on an input with a defined answer",
+                      {"case": case, "implementation": {"raised": f"{type(ex).__name__}: {str(ex)[:400]}"}},
+                      {"raises": type(ex).__name__, "backend": case["backend"], "calls_on_linker": 1})
+        return
     bad, errs = ctx.eval_cases("C19_replay", HEADER, [case_term(case, impl)], "run_case", shard=1)
     ctx.obligation("replayed case agrees with the model", not bad and not errs)
     if bad or errs:
